@@ -2,6 +2,7 @@ package elvcore
 
 import (
 	"fmt"
+	"strings"
 	"time"
 
 	"src.elv.sh/pkg/eval"
@@ -42,7 +43,13 @@ func RunChunk(ev *eval.Evaler, ch *Node) (Event, error) {
 		return Event{}, fmt.Errorf("evaluation of a bounded program did not finish: %s", src)
 	}
 	if o.Panic != "" {
-		return Event{}, fmt.Errorf("evaluation panicked (C17's subject, not judged here): %s\n%s", src, o.Panic)
+		// the real code crashed where the reference semantics prescribes an outcome: recorded as
+		// the cause "panic", which no model cause matches
+		first := o.Panic
+		if i := strings.IndexByte(first, '\n'); i > 0 {
+			first = first[:i]
+		}
+		return Event{Ev: "chunk", Ast: ch, Out: ProjectValues(o.Values), Exc: J{"c": "panic", "text": first}, Src: src}, nil
 	}
 	switch ErrKind(o.Err) {
 	case "parse", "compile", "other":
@@ -68,6 +75,9 @@ func RunProgram(chunks []*Node) ([]Event, error) {
 			return nil, err
 		}
 		evs = append(evs, e)
+		if e.Exc["c"] == "panic" {
+			break // the interpreter may be in an inconsistent state
+		}
 	}
 	return evs, nil
 }
